@@ -39,6 +39,24 @@ PROPS = {
                         "spectra whose range max-min is below 1e-9 are treated as constant by the C code (advisory finding of the bounded harness)"],
         "technique": "contract-based deductive verification of ptnghb/partition from clang's AST + bounded exhaustive run-time contract of the whole watershed",
     },
+    "C20": {
+        "level": "other",
+        "engines": [
+            {"kind": "pyse"},
+            {"kind": "cvc", "select": [(".*", "bounds|overflow|div0|init|variant|pre|inv_init|inv_pres|post|assigns|lemma|syntactic")]},
+            {"kind": "bounded_c", "which": "c20"},
+        ],
+        "explanation": "Python: every contract tagged C20 carries the obligation 'no exception on any feasible path under the validity "
+        "precondition' (an exception escaping the real function on a feasible path is a refuted obligation with the path's model replayed) and "
+        "'invalid arguments raise ValueError on every path'. Native: for all nk,nth>=1, ihmax>=1 every array access of partinit, ptnghb, "
+        "partition, ptsort, fifo_*, int_minval and the non-queue parts of pt_fld is proved in bounds, without int overflow, with every read "
+        "cell initialised, loops terminating (variants). BOUNDED (not proved): the queue-dependent accesses of pt_fld - specpart.c compiled from "
+        "the current tree under ASan+UBSan, all grids with nk*nth <= 6/9 over 3 values, ihmax in {1,2,3,5,100}, shape-change sequences, step budget.",
+        "trusted_base": ["clang's parse of specpart.c", "engine/cvc", "ASan/UBSan (bounded part)"],
+        "assumptions": ["malloc never returns NULL", "pt_fld FIFO-index safety and termination of its for(;;) loops: bounded only",
+                        "Python wrappers hand the C routine a C-contiguous float32 array of nk*nth cells with ihmax >= 1 (obligations of partition.watershed)"],
+        "technique": "contract-based deductive verification (PySE no-exception obligations; C VCs from clang's AST) + sanitizer-checked bounded enumeration for pt_fld",
+    },
 }
 
 _PENDING = "not yet brought under contract in the current build round (see DESIGN.md section 8 for the order of work)"
